@@ -26,7 +26,7 @@ struct Host {{
   tail: {s["HC"]},
 }}
 @group(0) @binding(0) var<storage, read_write> host: Host;
-struct VIn {{ @location(0) p: vec4<f32>, @builtin(vertex_index) vi: u32, @location(1) q: vec2<i32>, @builtin(instance_index) ii: u32, @location(2) r: f32 }}
+struct VIn {{ @location(2) p: vec4<f32>, @builtin(vertex_index) vi: u32, @location(0) q: vec2<i32>, @builtin(instance_index) ii: u32, @location(1) r: f32 }}
 @vertex fn vs(in: VIn) -> @builtin(position) vec4<f32> {{ return in.p; }}
 '''
 
